@@ -161,7 +161,12 @@ func (r *rateLimiter) UpdateRateLimitConditionStatus(upstream string, condition 
 		return nil, err
 	}
 
+	// quotas on record for this instance: its share of the allocated sum
+	recordedFlowControlMap := map[string]proxyv1alpha1.RateLimitItemConfiguration{}
 	oldCondition, err := limitStore.Get(condition.Spec.UpstreamCluster, condition.Name)
+	if err == nil {
+		recordedFlowControlMap = util.FlowControlConfigToMap(oldCondition.Spec.LimitItemConfigurations)
+	}
 	if errors.IsNotFound(err) {
 		oldCondition = &proxyv1alpha1.RateLimitCondition{
 			TypeMeta:   upstreamCondition.TypeMeta,
@@ -205,7 +210,14 @@ func (r *rateLimiter) UpdateRateLimitConditionStatus(upstream string, condition 
 			return nil, fmt.Errorf("upstream flow control item type %s not equal to instance item type %s", upstreamItemType, itemType)
 		}
 
-		newConfig := calculateNextQuota(upstreamTotal, upstreamUsed, flowControlConfig, flowControlStatus, len(clients), condition)
+		var recorded int32
+		if item, ok := recordedFlowControlMap[flowControlConfig.Name]; ok {
+			if quota := getLimitQuota(item.LimitItemDetail, upstreamItemType); quota > 0 {
+				recorded = quota
+			}
+		}
+
+		newConfig := calculateNextQuota(upstreamTotal, upstreamUsed, flowControlConfig, flowControlStatus, len(clients), condition, recorded)
 		//klog.V(4).Infof("[condition] name=%q next quota of condition: %+v", condition.Name, newConfig)
 
 		var allocatedLimit int32
